@@ -37,7 +37,7 @@ func newVHostTrie() *vhostTrie {
 	// in to "[::1]" (and vice-versa) even though the IP versions differ.
 	// This might be OK, or maybe it's not desirable. The 'bind' directive
 	// can be used to restrict what interface a listener binds to.
-	return &vhostTrie{edges: make(map[string]*vhostTrie), fallbackHosts: []string{"0.0.0.0", "[::]", ""}}
+	return &vhostTrie{edges: make(map[string]*vhostTrie), fallbackHosts: []string{"0.0.0.0", "::", ""}}
 }
 
 // Insert adds stack to t keyed by key. The key should be
@@ -154,6 +154,11 @@ func (t *vhostTrie) splitHostPath(key string) (host, path string) {
 	hostname, _, err := net.SplitHostPort(host)
 	if err == nil {
 		host = hostname
+	} else if len(host) > 1 && host[0] == '[' && host[len(host)-1] == ']' {
+		// an IP literal without a port keeps its brackets through
+		// SplitHostPort; drop them so that "[::1]", "[::1]:8080" and the
+		// Host header of either spelling all name the same host.
+		host = host[1 : len(host)-1]
 	}
 	return
 }
